@@ -222,3 +222,29 @@ def gen_generic_action_resource(rng):
 
 def deep_copy(x):
     return json.loads(json.dumps(x))
+
+
+def valid_resources(rng):
+    """one valid definition of every modelled resource type (keyed by Type)"""
+    pd = lambda: gen_policy_document(rng, sid_prefix="v")  # noqa: E731
+    trust = {"Version": "2012-10-17", "Statement": [{"Effect": "Allow", "Principal": {"Service": "ec2.amazonaws.com"}, "Action": "sts:AssumeRole"}]}
+    return {
+        "AWS::EC2::VPCEndpoint": {"Type": "AWS::EC2::VPCEndpoint", "Properties": {"ServiceName": "s", "VpcId": "v", "PolicyDocument": pd(), "PrivateDnsEnabled": True}},
+        "AWS::Elasticsearch::Domain": {"Type": "AWS::Elasticsearch::Domain", "Properties": {"DomainName": "d", "AccessPolicies": pd(), "EBSOptions": {"EBSEnabled": True}}},
+        "AWS::IAM::Group": {"Type": "AWS::IAM::Group", "Properties": {"GroupName": "g", "Policies": [{"PolicyName": "p", "PolicyDocument": pd()}]}},
+        "AWS::IAM::ManagedPolicy": {"Type": "AWS::IAM::ManagedPolicy", "Properties": {"PolicyDocument": pd(), "ManagedPolicyName": "m"}},
+        "AWS::IAM::Policy": {"Type": "AWS::IAM::Policy", "Properties": {"PolicyName": "p", "PolicyDocument": pd(), "Roles": ["r"]}},
+        "AWS::IAM::Role": {"Type": "AWS::IAM::Role", "Properties": {"AssumeRolePolicyDocument": trust, "Path": "/", "MaxSessionDuration": 3600}},
+        "AWS::IAM::User": {"Type": "AWS::IAM::User", "Properties": {"UserName": "u", "LoginProfile": {"Password": "x"}}},
+        "AWS::KMS::Key": {"Type": "AWS::KMS::Key", "Properties": {"KeyPolicy": pd(), "EnableKeyRotation": "true", "PendingWindowInDays": 7}},
+        "AWS::OpenSearchService::Domain": {"Type": "AWS::OpenSearchService::Domain", "Properties": {"DomainName": "d", "AccessPolicies": pd()}},
+        "AWS::RDS::DBSecurityGroup": {"Type": "AWS::RDS::DBSecurityGroup", "Properties": {"GroupDescription": "d", "DBSecurityGroupIngress": [{"CIDRIP": "10.0.0.0/8"}]}},
+        "AWS::RDS::DBSecurityGroupIngress": {"Type": "AWS::RDS::DBSecurityGroupIngress", "Properties": {"DBSecurityGroupName": "n", "CIDRIP": "1.2.3.4/32"}},
+        "AWS::S3::Bucket": {"Type": "AWS::S3::Bucket", "Properties": {"BucketName": "b", "Tags": [{"Key": "k", "Value": "v"}], "VersioningConfiguration": {"Status": "Enabled"}}},
+        "AWS::S3::BucketPolicy": {"Type": "AWS::S3::BucketPolicy", "Properties": {"Bucket": "b", "PolicyDocument": pd()}},
+        "AWS::EC2::SecurityGroup": {"Type": "AWS::EC2::SecurityGroup", "Properties": {"GroupDescription": "d", "SecurityGroupIngress": [{"IpProtocol": "tcp", "CidrIp": "10.0.0.0/8", "FromPort": 22, "ToPort": 22}]}},
+        "AWS::EC2::SecurityGroupEgress": {"Type": "AWS::EC2::SecurityGroupEgress", "Properties": {"GroupId": "g", "IpProtocol": "-1", "CidrIp": "0.0.0.0/0"}},
+        "AWS::EC2::SecurityGroupIngress": {"Type": "AWS::EC2::SecurityGroupIngress", "Properties": {"GroupId": "g", "IpProtocol": "tcp", "CidrIpv6": "::/0", "FromPort": 443, "ToPort": 443}},
+        "AWS::SNS::TopicPolicy": {"Type": "AWS::SNS::TopicPolicy", "Properties": {"Topics": ["t"], "PolicyDocument": pd()}},
+        "AWS::SQS::QueuePolicy": {"Type": "AWS::SQS::QueuePolicy", "Properties": {"Queues": ["q"], "PolicyDocument": pd()}},
+    }
